@@ -134,7 +134,7 @@ class Explorer:
                  heap: Optional[Dict[Term, Term]] = None, facts: Optional[Dict[Term, bool]] = None,
                  unroll: Tuple[int, ...] = (0, 1, 2), inline: int = 0, inline_ok=None, max_paths: int = 20000,
                  truthy_elems: bool = False, nonempty: Optional[Set[Term]] = None,
-                 self_term: Optional[Term] = None):
+                 self_term: Optional[Term] = None, track_heap: bool = True):
         self.ctx = ctx
         self.fn = fn
         self.unroll = tuple(sorted(set(unroll)))
@@ -143,6 +143,7 @@ class Explorer:
         self.max_paths = max_paths
         self.truthy_elems = truthy_elems
         self.self_term = self_term
+        self.track_heap = track_heap     # False: attribute / item reads stay symbolic (stores are still recorded as events)
         self.init = State(dict(env or {}), dict(heap or {}), dict(facts or {}), [], [], set(nonempty or ()))
         self.paths_enumerated = 0
 
@@ -286,7 +287,10 @@ class Explorer:
             base = n.norm(tg.value)
             cls = self.fn.enclosing_class
             key = T.mk_attr(base, mangle(tg.attr, cls.name if cls else None))
-            st.heap[key] = value
+            if self.track_heap:
+                st.heap[key] = value
+            else:
+                self._forget(st, key)
             st.add(Event("setattr", node, value, {"target": key}))
         elif isinstance(tg, ast.Subscript):
             base = n.norm(tg.value)
@@ -294,9 +298,18 @@ class Explorer:
                 ("slice", T.NONE, n.norm_opt(tg.slice.lower), n.norm_opt(tg.slice.upper), n.norm_opt(tg.slice.step))
             st.add(Event("setitem", node, value, {"base": base, "index": idx}))
             # reads of the same element later on this path see the stored value
-            st.heap[T.mk_idx(base, idx)] = value
+            if self.track_heap:
+                st.heap[T.mk_idx(base, idx)] = value
+            else:
+                self._forget(st, T.mk_idx(base, idx))
         elif isinstance(tg, ast.Starred):
             self._assign_target(tg.value, value, st, node)
+
+    @staticmethod
+    def _forget(st: State, key: Term):
+        """a location was overwritten and reads are not tracked: facts that mention it are stale"""
+        for f in [f for f in st.facts if T.contains(f, key)]:
+            del st.facts[f]
 
     def x_Assign(self, s, st):
         value = self.normalizer(st).norm(s.value)
